@@ -50,9 +50,9 @@ macro_rules! flush_before_rename {
         #[kani::unwind(14)]
         fn $name() {
             unsafe {
-                fmtm::CONST_ROWS = true;
-                gfs::FAULT_AT = kani::any();
-                if $short { gfs::SHORT_AT = kani::any(); }
+                fmtm::CONST_ROWS.v = true;
+                gfs::FAULT_AT.v = kani::any();
+                if $short { gfs::SHORT_AT.v = kani::any(); }
             }
             let mut cb = mk_dump(4);
             let block = mk_block(1, 1, 1, false);
@@ -62,33 +62,33 @@ macro_rules! flush_before_rename {
                 match cb.on_block(&block, b as u64) { Ok(()) => {}, Err(e) => { core::mem::forget(e); ok = false; } }
                 b += 1;
             }
-            let renames_before_complete = unsafe { gfs::RENAMES };
+            let renames_before_complete = unsafe { gfs::RENAMES.v };
             assert!(renames_before_complete == 0, "C10:no_final_name_before_completion");
             if ok {
                 match cb.on_complete(($blocks - 1) as u64) {
                     Ok(()) => {
                         unsafe {
-                            assert!(!gfs::WRITE_FAILED, "C10:exit_0_implies_no_write_failed");
-                            assert!(gfs::RENAMES == 4, "C10:exit_0_implies_all_files_have_final_names");
+                            assert!(!gfs::WRITE_FAILED.v, "C10:exit_0_implies_no_write_failed");
+                            assert!(gfs::RENAMES.v == 4, "C10:exit_0_implies_all_files_have_final_names");
                             assert!(cb.block_writer.buffer().is_empty() && cb.tx_writer.buffer().is_empty()
                                 && cb.txin_writer.buffer().is_empty() && cb.txout_writer.buffer().is_empty(), "C10:exit_0_implies_nothing_left_buffered");
                             let mut f = 3;
                             while f <= 6 {
-                                assert!(gfs::ACCEPTED[f] == gfs::SNAP_AT_FIRST_RENAME[f], "C10:no_bytes_written_after_the_first_rename");
-                                assert!(gfs::ACCEPTED[f] == 2 * $blocks, "C10:final_file_is_complete");
+                                assert!(gfs::ACCEPTED.v[f] == gfs::SNAP_AT_FIRST_RENAME.v[f], "C10:no_bytes_written_after_the_first_rename");
+                                assert!(gfs::ACCEPTED.v[f] == 2 * $blocks, "C10:final_file_is_complete");
                                 f += 1;
                             }
                         }
-                        kani::cover!(unsafe { gfs::WRITE_CALLS } > 4, "successful run with several write calls");
+                        kani::cover!(unsafe { gfs::WRITE_CALLS.v } > 4, "successful run with several write calls");
                     }
                     Err(e) => {
                         core::mem::forget(e);
-                        assert!(unsafe { gfs::RENAMES } == 0, "C10:write_failure_leaves_no_final_named_file");
-                        kani::cover!(unsafe { gfs::WRITE_FAILED }, "write failed during completion (final flush)");
+                        assert!(unsafe { gfs::RENAMES.v } == 0, "C10:write_failure_leaves_no_final_named_file");
+                        kani::cover!(unsafe { gfs::WRITE_FAILED.v }, "write failed during completion (final flush)");
                     }
                 }
             } else {
-                kani::cover!(unsafe { gfs::WRITE_FAILED }, "write failed while processing a block");
+                kani::cover!(unsafe { gfs::WRITE_FAILED.v }, "write failed while processing a block");
             }
             core::mem::forget(cb);
             core::mem::forget(block);
@@ -123,12 +123,12 @@ fn c02_csv_names() {
     let stxt: [&str; 4] = ["0", "7", "12", "345"];
     let etxt: [&str; 4] = ["0", "9", "10", "99999"];
     unsafe {
-        assert!(gfs::RENAMES == 4, "C02:four_files_renamed");
+        assert!(gfs::RENAMES.v == 4, "C02:four_files_renamed");
         let mut k = 0;
         while k < 4 {
             let mut want = String::from("d/");
             want.push_str(kinds[k]); want.push('-'); want.push_str(stxt[si as usize]); want.push('-'); want.push_str(etxt[ei as usize]); want.push_str(".csv");
-            let got = &gfs::RENAME_TO[k][..gfs::RENAME_TO_LEN[k]];
+            let got = &gfs::RENAME_TO.v[k][..gfs::RENAME_TO_LEN.v[k]];
             assert!(got.len() == want.len(), "C02:file_name_carries_start_and_last_height");
             let wb = want.as_bytes();
             let mut i = 0;
